@@ -393,7 +393,16 @@ func (w *world) ctxStep(i int) {
 		}
 		switch op {
 		case 0, 1, 2:
-			tag := w.mkCtx()
+			var tag int
+			if w.ctxTag > 0 && c.S.PlanP(250) {
+				// a distinct context that merely wraps the current one (same Done channel): it is a new context all the same
+				tag = len(w.ctxs) + 1
+				w.ctxs[tag] = core.Retag(w.ctxs[w.ctxTag], tag)
+				w.cancels[tag] = w.cancels[w.ctxTag]
+				c.S.Count("probe:wrapped-context")
+			} else {
+				tag = w.mkCtx()
+			}
 			restart := c.S.PlanP(400)
 			c.Descf("ctx-driver: SetContext(ctx%d, restart=%v)", tag, restart)
 			inv := c.Tick()
